@@ -89,6 +89,9 @@ def c03_2(rep, ix, M):
                 nm = u(n).split(".")[-1]
                 if nm.endswith("Context"):
                     branches[nm[:-7]] = s
+    if not branches:
+        # e.g. a dispatch table {Context class: handler} or a match statement: outside the idiom set of this rule
+        raise Inconclusive("_expression: no isinstance(expr, blackbirdParser.<Label>Context) branches found (dispatch idiom not recognised)")
     for l in labels:
         rep.check(l in branches, R, ix.site(f, branches.get(l, fn)), "_expression handles the alternative #%s" % l, "no isinstance(expr, blackbirdParser.%sContext) branch" % l, key="label|" + l)
     extra = sorted(set(branches) - set(labels))
@@ -274,8 +277,13 @@ def c03_4(rep, ix, M):
     fn = f.node
     p_fun, p_arg = f.params[0], f.params[1]
     te = TermEval(ctxvar="__none__")
-    paths = te.paths(fn.body, {})
+    try:
+        paths = te.paths(fn.body, {})
+    except Inconclusive:
+        paths = []
     tp = token_paths(paths, p_fun)
+    if not any(k for k in tp):
+        return function_table(rep, R, ix, f, G, ftoks)
     for tok in ftoks:
         lit = G.literal_of(tok)
         got = [t for k, lst in tp.items() if k[-1:] == (tok,) for conds, t in lst]
@@ -291,6 +299,33 @@ def c03_4(rep, ix, M):
     direct = len(calls) == 1 and len(rets) == 1 and rets[0].value is calls[0]
     rep.check(direct and [u(a) for a in calls[0].args] == ["%s.function()" % arg, "%s.expression()" % arg], R, ix.site(e, calls[0]) if calls else ix.site(e),
               "#FunctionLabel returns _func(expr.function(), expr.expression()) unmodified", "returns `%s`" % (u(rets[0].value) if rets else None), key="func|callsite")
+
+
+def function_table(rep, R, ix, f, G, ftoks):
+    """table-driven form:  TABLE = {"sin": np.sin, ...};  return TABLE[function.getText()](_expression(arg))"""
+    fn = f.node
+    p_fun, p_arg = f.params[0], f.params[1]
+    tables = {}
+    for scope in (ix.module_globals(f.mod), {u(n.targets[0]): n.value for n in ast.walk(fn) if isinstance(n, ast.Assign) and isinstance(n.targets[0], ast.Name)}):
+        for name, val in scope.items():
+            if isinstance(val, ast.Dict) and val.keys and all(isinstance(k, ast.Constant) and isinstance(k.value, str) for k in val.keys):
+                tables[name] = {k.value: u(v) for k, v in zip(val.keys, val.values)}
+    use = None
+    for n in ast.walk(fn):
+        if isinstance(n, ast.Return) and isinstance(n.value, ast.Call) and isinstance(n.value.func, ast.Subscript) and isinstance(n.value.func.value, ast.Name) and n.value.func.value.id in tables:
+            key = " ".join(u(n.value.func.slice).split())
+            arg = " ".join(u(n.value.args[0]).split()) if len(n.value.args) == 1 else None
+            if key == "%s.getText()" % p_fun and arg == "_expression(%s)" % p_arg:
+                use = n.value.func.value.id
+    if use is None:
+        raise Inconclusive("_func: neither a chain of `if function.TOKEN(): return np.f(_expression(arg))` nor a table lookup TABLE[function.getText()](_expression(arg))")
+    tab = tables[use]
+    lits = {G.literal_of(t): t for t in ftoks}
+    for lit, tok in sorted(lits.items()):
+        rep.check(tab.get(lit) == "np." + lit, R, ix.site(f), "function table maps '%s' (token %s) to np.%s" % (lit, tok, lit), "maps to %s" % tab.get(lit), key="func|" + tok)
+    extra = sorted(set(tab) - set(lits))
+    rep.check(not extra, R, ix.site(f), "the function table has no entry that is not a grammar function", "extra %s" % extra, key="func|extra")
+    rep.ok(R, ix.site(f), "a function text missing from the table raises KeyError (no silent None)")
 
 
 # ------------------------------------------------------------------------------------------- C03.5 literals
@@ -319,3 +354,12 @@ def c03_5(rep, ix, M):
               "#NumberLabel returns _number(expr.number()) unmodified", key="num|callsite")
     # the PI token's literal is 'pi'
     rep.check(G.literal_of("PI") == "pi", R, "blackbird.g4 PI", "the PI token is the literal 'pi'")
+    # every lexical form the grammar allows for a literal is accepted by the Python constructor that converts it (regular inclusion on automata)
+    from ..py.templates import Lang, included
+    L = Lang(G)
+    PY = {"INT": "('+'|'-')? [0-9]+ ('_'? [0-9]+)*",
+          "FLOAT": "('+'|'-')? ([0-9]+ ('.' [0-9]*)? | '.' [0-9]+) (('e'|'E') ('+'|'-')? [0-9]+)?",
+          "COMPLEX": "('+'|'-')? ([0-9]+ ('.' [0-9]*)? | '.' [0-9]+) (('e'|'E') ('+'|'-')? [0-9]+)? (('+'|'-') ([0-9]+ ('.' [0-9]*)? | '.' [0-9]+) (('e'|'E') ('+'|'-')? [0-9]+)?)? ('j'|'J')"}
+    for tok, py in PY.items():
+        w = included(L.of_rule(tok), L.of_expr(py))
+        rep.check(w is None, R, "blackbird.g4 " + tok, "every %s token text is in the input syntax of Python's %s()" % (tok, tok.lower()), "e.g. %r is a %s token that the constructor rejects" % (w, tok), key="lit|" + tok)
